@@ -82,7 +82,7 @@ R.contract("PeerConnection.work_read_queue", params={"self": "PeerConnection", "
            raises=[], modifies=["self._read_buffer", "self._last_read", "self._last_msg", "self.state",
                                 "self._read_thread.stopped", "self._write_thread.stopped"] + _HANDLER_MODS,
            ghost_modifies=["self.g_dlog", "self._read_buffer_queue.g_n", "self.g_attn"],
-           props=["C05", "C14", "C07", "C11"],
+           props=["C05", "C14", "C07", "C11", "C08"],
            note="thread target: raises nothing; the framing obligations are the loop clauses below")
 R.macro("stuck", ["b"], "len(b) < 20 or hlen(b) > len(b)")
 R.loop("PeerConnection.work_read_queue", 0,
